@@ -114,6 +114,9 @@ def carriers(c):
     out.append(("argument-arrow", arrow + "takes_opt(c->k);"))
     out.append(("return-arrow", arrow + "let v = gives_opt(c);"))
     out.append(("assign-arrow", arrow + "let v: ?%s = none; v = c->k;" % ty))
+    # the value travels inside typed containers of `any` (a list, an option) which are themselves put into an `any` again
+    out.append(("any-list-any", "let l: [any] = %s.parse_json() as [any]; let y: any = l; let v: [%s] = y; println(v.len() > 5);" % (json.dumps("[" + json_text(c["v"]) + "]"), ty)))
+    out.append(("arrow-any", arrow + "let q: ?any = c->k; let z: any = q; let v: ?%s = z; println(v.is_some());" % ty))
     return out
 
 def run(args):
@@ -212,6 +215,10 @@ def run(args):
             nrej += 1          # (the analyzer may see statically that the form cannot work, e.g. `takes` of an any without annotation)
             continue
         want = ("admitted" if c["r"]["ok"] else "refused") + "\n42\n"
+        if cname == "any-list-any":
+            want = ("false\n" if c["r"]["ok"] else "") + want
+        if cname == "arrow-any":
+            want = ("true\n" if c["r"]["ok"] else "") + want
         if r["out"] != want or r["outcome"]["kind"] != "done":
             rep.fail(dict(feat, kind="admitted-nonconforming" if "admitted" in r["out"] and not c["r"]["ok"] else
                           ("refused-conforming" if "refused" in r["out"] and c["r"]["ok"] else "wrong-behaviour")),
